@@ -5,6 +5,7 @@ import (
 	"os"
 	"sort"
 	"strings"
+	"unicode/utf8"
 
 	"github.com/openziti/storage/ast"
 	"github.com/openziti/storage/boltz"
@@ -48,6 +49,11 @@ func confusables(s string) []string {
 	add(`\` + s)
 	add(strings.TrimSpace(s))
 	add(strings.ToUpper(s))
+	if !utf8.ValidString(s) {
+		add(strings.ToValidUTF8(s, "\uFFFD"))
+		add(strings.ReplaceAll(s, "\xff", "\xfe"))
+		add(strings.ReplaceAll(s, "\xfe", "\xff"))
+	}
 	// the literal text itself (escapes not decoded at all)
 	lit := ql.Lit(s)
 	add(lit[1 : len(lit)-1])
@@ -126,7 +132,10 @@ func runC11(c *core.Ctx, idx int) {
 		}
 	} else {
 		// strings that read like another kind of literal: they denote themselves, whatever the symbol they are compared with
-		strs = append(strs, "2023-01-01T00:00:00Z", "2020-01-02T03:04:05.123+05:45", "datetime(2020-01-02T03:04:05Z)", "true", "false", "null", "123", "-1", "1.5", "1e3", "[1]", `["a"]`, "anyOf(a)", "a and b", "not", "", "Alice", "alice", "ALICE", " a", "a ", "AN", "an")
+		strs = append(strs, "2023-01-01T00:00:00Z", "2020-01-02T03:04:05.123+05:45", "datetime(2020-01-02T03:04:05Z)", "true", "false", "null", "123", "-1", "1.5", "1e3", "[1]", `["a"]`, "anyOf(a)", "a and b", "not", "", "Alice", "alice", "ALICE", " a", "a ", "AN", "an",
+			// byte strings that are not valid UTF-8 (an id read from elsewhere): a filter over one is refused or denotes it,
+			// it never denotes another string (the replacement character, another invalid byte)
+			"\xff", "\xfe", "a\xffb", "\xc0\xaf", "\x80", "\uFFFD")
 		for i := 0; i < 150; i++ {
 			n := 5 + r.Intn(8)
 			var sb strings.Builder
@@ -200,6 +209,10 @@ func runC11(c *core.Ctx, idx int) {
 			query, err := ast.Parse(tbl, qq.text)
 			c.Eval()
 			if err != nil {
+				if !utf8.ValidString(s) {
+					c.Count("filters_over_invalid_utf8_refused", 1)
+					continue // text that is not valid UTF-8 is no sentence: refusing it is fine
+				}
 				c.Violationf("C11 literal rejected: "+qq.name, map[string]any{"s": s, "query": qq.text}, "query %s for s=%q: %v", qq.text, s, err)
 				continue
 			}
@@ -406,6 +419,9 @@ func c11Bolt(c *core.Ctx, db *boltz.DbImpl, st *schema.St, s string, cands []str
 			}
 			if name == "!=" {
 				want = append(want, "rnull") // a null field differs from every string literal
+			}
+			if err != nil && !utf8.ValidString(text) {
+				return // refused: not valid UTF-8
 			}
 			if err != nil || fmt.Sprint(ids) != fmt.Sprint(want) {
 				c.Violationf("C11 bolt store: literal denotes another string ("+name+"): "+classifyEsc(s, ""), map[string]any{"s": s, "rows": fmt.Sprintf("%q", cands), "query": text},
